@@ -40,6 +40,7 @@ type vclock struct {
 	hb             time.Duration // the interval the engine must be using
 	feat           map[string]bool
 	traceSeen      int
+	dead           map[string]bool // timers the engine has stopped (EventTimer.Stop is terminal)
 	asked          map[string]int // TestReqIDs received so far (every inbound TestRequest, whatever its number)
 	answered       map[string]int // Heartbeats sent carrying that TestReqID
 	resendBefore   struct {
@@ -54,7 +55,19 @@ func (v *vclock) after(s *sim, st rig.StepResult, ctx stepCtx) {
 	c := s.c
 	for _, e := range s.r.Entries(st) {
 		switch e.Kind {
+		case "timer-stopped":
+			// the engine stopped the timer object for good: nothing it arms later will ever fire
+			if v.dead == nil {
+				v.dead = map[string]bool{}
+			}
+			v.dead[e.Timer] = true
+			delete(v.deadline, e.Timer)
+			s.logf("@%v the engine stopped its %s timer (terminal)", v.now, e.Timer)
 		case "timer":
+			if v.dead[e.Timer] {
+				// armed after Stop: no event will come of it (the deadline is not entered)
+				break
+			}
 			v.deadline[e.Timer] = v.now + e.Dur
 			// the engine must arm the intervals the statement names
 			if s.r.V.IsLoggedOn() || ctx.loggedOnBefore {
